@@ -109,7 +109,7 @@ def judge_dfa(dfa, perm, case):
     A = AU.read(dfa)
     for n in range(0, 7):
         for w in P.m_words(n):
-            want = C.contains(P.perm_of_word(P.m_to_sp(w)), t) if n >= 2 else False
+            want = C.contains(P.perm_of_word(P.m_to_sp(w)) if n >= 2 else (), t)  # words shorter than 2 encode no pin
             if AU.accepts(A, w) is not want:
                 CTX.ev()
                 report(*case, f"loaded automaton for {t} {'accepts' if not want else 'rejects'} {w!r} wrongly")
